@@ -107,6 +107,45 @@ private:
         // checked during type validation
     }
 
+    offset_t get_offset_in_composite(
+        const sbe::composite_element& element) const
+    {
+        return std::visit(
+            [this](const auto& enc) -> offset_t
+            {
+                // `ref_context` holds a plain value, others hold `optional`
+                return std::optional<offset_t>{
+                    ctx_manager->get(enc).offset_in_composite}
+                    .value_or(0);
+            },
+            element);
+    }
+
+    // data is represented as `length` immediately followed by the payload, the
+    // header composite can't describe anything else (custom offsets, other
+    // non-constant elements), otherwise data would be silently encoded
+    // differently from what the schema says
+    void validate_data_header_layout(const sbe::composite& c) const
+    {
+        const auto& length_type =
+            get_level_header_element(c, "data", "length").first;
+        const auto length_size = ctx_manager->get(length_type).size;
+        const auto length_offset = get_offset_in_composite(
+            *utils::find_composite_element(c, "length"));
+        const auto data_offset = get_offset_in_composite(
+            *utils::find_composite_element(c, "varData"));
+
+        if((length_offset != 0) || (data_offset != length_size)
+           || (ctx_manager->get(c).size != length_size))
+        {
+            throw_error(
+                "{}: data header `{}` must consist of `length` immediately "
+                "followed by `varData`",
+                c.location,
+                c.name);
+        }
+    }
+
     void validate_data_header(const sbe::data& d)
     {
         // multiple groups usually share the same header type, we don't need to
@@ -134,8 +173,7 @@ private:
 
             validate_level_header_element(*c, "data", "length");
             validate_data_element_type(*c);
-            // strict: the order should be `length -> varData` and no other
-            //  elements are allowed
+            validate_data_header_layout(*c);
 
             validated_data_headers.insert(lowered_name);
         }
